@@ -255,6 +255,7 @@ for j in jobs:
         if kw.get(k) is not None: kw[k] = set(kw[k])
         elif k in kw: del kw[k]
     if kw.get('encoding', 0) is None: del kw['encoding']
+    if j.get('eb'): kw['extra_builtins'] = dict(j['eb'])
     cls = {'PageTemplate': PageTemplate, 'PageTextTemplate': PageTextTemplate, 'Sub': Sub, 'Template': Template}[j.get('cls', 'PageTemplate')]
     try:
         if j.get('file'):
@@ -300,6 +301,11 @@ def pairs(rng, root):
         ps.append(({'body': b1, 'kw': {}}, {'body': b2, 'kw': {}}, 'body (XML line ends)'))
     ps.append(({'body': '<b>${1}</b>', 'kw': {}, 'cls': 'PageTemplate'}, {'body': '<b>${1}</b>', 'kw': {}, 'cls': 'PageTextTemplate'}, 'class'))
     ps.append(({'body': '<b>${1 + 1}</b>', 'kw': {}, 'cls': 'PageTemplate'}, {'body': '<b>${1 + 1}</b>', 'kw': {}, 'cls': 'Sub'}, 'class (user subclass)'))
+    # extra builtins: the same names given in another insertion order (a dictionary built from a set), and another set of names
+    eb_body = "<p>${a}-${b | 'none'}-${c | 'none'}</p>"
+    ps.append(({'body': eb_body, 'kw': {}, 'eb': [['a', 'A'], ['b', 'B']]}, {'body': eb_body, 'kw': {}, 'eb': [['b', 'B'], ['a', 'A']]}, 'extra_builtins (insertion order)'))
+    ps.append(({'body': eb_body, 'kw': {}, 'eb': [['c', 'C'], ['a', 'A'], ['b', 'B']]}, {'body': eb_body, 'kw': {}, 'eb': [['b', 'B'], ['c', 'C'], ['a', 'A']]}, 'extra_builtins (insertion order)'))
+    ps.append(({'body': eb_body, 'kw': {}, 'eb': [['a', 'A'], ['b', 'B']]}, {'body': eb_body, 'kw': {}, 'eb': [['a', 'A'], ['c', 'B']]}, 'extra_builtins (names)'))
     ps.append(({'body': 'Hello ', 'kw': {}, 'cls': 'PageTemplate'}, {'body': 'Hello Page', 'kw': {}, 'cls': 'Template'}, 'body / class-name boundary'))
     d1, d2 = os.path.join(root, 'f1'), os.path.join(root, 'f2')
     os.makedirs(d1, exist_ok=True)
